@@ -22,12 +22,18 @@ TRUSTED = [
     'tuples, Index/name paths, SELF/SKIP/Literal); masks, numpy leaves and DataFrames are outside this model (C18/C02)',
     'user callables are arbitrary functions with private state in the theorems and a fixed named library in the '
     'correspondence (Model/PipeLib.lean mirrors harness/lib_pipe.py make_fn)',
+    'heap-aware part (Model/PipeHeap.lean on the C18 heap): covers the output routing _get_outputs with the function outputs given as '
+    'heap objects; tied per record by the identity pattern of the real output objects vs the driver model `pipeheap` (sink/assign '
+    'chains); its agreement with the functional model Pipe.getOutputs is checked per case by the driver, not proved',
     'garbage collection: a Sink generator that is dropped un-exhausted runs its finally when CPython frees it '
     '(reference counting); the harness drops the iterator and collects before it reads `closed`',
 ]
 ASSUMPTIONS = ['records are ints, tuples, lists and str-keyed (nested) dicts of ints',
-               'num_threads=2 cases are compared as multisets and only when no error reaches the caller']
-RULE = ('corpus; a systematic table (every operator kind x key shape); random typed chains of 1..6 operators from the '
+               'num_threads>=2 cases are compared as multisets and only when no error reaches the caller; num_threads=1 in order']
+RULE = ('corpus; a systematic table (every operator kind x key shape); arm nested-assign (several assign keys, one a nested '
+        'path into an existing dict/list/tuple of the record, dict-form keys with such record keys; alone / behind a sink / filter / '
+        'assign; the same record objects twice); arm builder (17 key-producing operator forms x none|filter|sink x 16 assign key forms, '
+        'constant functions); random typed chains of 1..6 operators from the '
         'grammar select|apply|assign|filter|batch|sink x key shapes (bare, Key path, nested path, Index, tuple, dict/kwargs, '
         'SELF, SKIP, Literal, dict output keys) x the named callable library x batch_size/fn_batch_size x streams of 0..8 '
         'records of 5 shapes x ignore_error x num_threads in {0,2}; ~15% "wild" chains built without looking at the records '
@@ -147,6 +153,170 @@ def systematic(rng):
   yield mk_case([{'op': 'assign', 'fn': f('v_add1'), 'in': {'one': N('v')}, 'keys': {'one': N('o')}, 'fn_batch': 0, 'batch': 2}], cols)
 
 
+def nested_items(rng, n):
+  """dict records with nested containers of every kind: c = {d: int, l: [..], t: (..), m: {k: int}}"""
+  items = []
+  for i in range(n):
+    a, b = rng.randrange(0, 9), rng.randrange(0, 9)
+    items.append(G.wd(a=a, b=b, c=G.wd(d=i, l=G.wl([a + 10, b + 10]), t={'t': [a, b]}, m=G.wd(k=i))))
+  return items
+
+
+DK = lambda *items: {'dk': [list(it) for it in items]}
+
+
+def nested_assign_cases(rng):
+  """`assign` with SEVERAL output keys of which at least one is a NESTED path into a container that already exists in
+  the (dict) record — a dict, a list (overwrite / append at len), a tuple — also as the record key of a dict-form key;
+  alone, behind a sink that keeps what it was given (the whole record / the nested container), behind a filter, behind
+  another assign, followed by another nested assign; over a stream that delivers the same record objects twice.
+  What is observed besides the stream: the caller's records (deep snapshot + identity of every container), what the
+  sinks hold, and that no container on a written path of an output is a caller object."""
+  f = lambda n, **kw: dict(f=n, **kw)
+  one_a = {'one': N('a')}
+  keysets = [
+      ('pair', one_a, {'many': [N('x'), P('c', 'z')]}),
+      ('pair', one_a, {'many': [P('c', 'z'), N('x')]}),
+      ('pair', one_a, {'many': [P('c', 'l', 0), N('x')]}),
+      ('pair', one_a, {'many': [P('c', 'l', 2), P('c', 'd')]}),
+      ('pair', one_a, {'many': [P('c', 't', 1), N('x')]}),
+      ('pair', one_a, {'many': [P('c', 'm', 'k'), P('c', 'm', 'j')]}),
+      ('triple', one_a, {'many': [N('x'), P('c', 'z'), P('c', 'l', 1)]}),
+      ('swap', {'many': [N('a'), N('b')]}, {'many': [P('c', 'u', 'v'), N('y')]}),
+      ('mk_dict', one_a, {'one': DK(('x', N('u')), (P('c', 'z'), P('v')))}),
+      ('mk_dict', one_a, {'one': DK((P('c', 'm', 'k'), N('u')), (P('c', 'l', 0), N('v')))}),
+      ('tup', {'many': [N('c'), N('a')]}, {'many': [DK((P('c', 'z'), N('d'))), N('x')]}),
+      ('add1', one_a, {'one': P('c', 'z')}),                       # control: one nested key
+      ('pair', one_a, {'many': [N('x'), N('y')]}),                 # control: several flat keys
+  ]
+  before = [[], [{'op': 'sink', 'fn': f('ident'), 'in': {'one': SELF}, 'is_sink': True}],
+            [{'op': 'sink', 'fn': f('ident'), 'in': {'one': N('c')}, 'is_sink': True}],
+            [{'op': 'filter', 'fn': f('gt', c=-1), 'in': {'one': N('a')}}],
+            [{'op': 'assign', 'fn': f('add1'), 'in': {'one': N('a')}, 'keys': {'one': N('g')}}]]
+  after = [[], [{'op': 'assign', 'fn': f('add1'), 'in': {'one': N('a')}, 'keys': {'one': P('c', 'w')}}]]
+  i = 0
+  for fn, ins, keys in keysets:
+    for b in before:
+      for a in after:
+        i += 1
+        specs = copy.deepcopy(b) + [{'op': 'assign', 'fn': f(fn), 'in': ins, 'keys': keys}] + copy.deepcopy(a)
+        c = mk_case(specs, nested_items(rng, 3), tag='nested-assign')
+        if i % 2:
+          c['src']['twice'] = True
+        yield c
+
+
+def builder_cases():
+  """The builder's key-set rule, systematically: every operator kind that produces record keys x every key form
+  (plain, tuple, dict-form with record key != source name, Key path, SELF) x an operator in between that leaves the keys
+  alone (none / filter / sink) x an assign whose key form names a produced key, a fresh key, or mentions a produced
+  key only on the SOURCE side of a dict-form key.  Every function is a constant, so accepted chains also run."""
+  const = lambda v: {'f': 'const', 'c': v}
+  d_uv = G.wd(u=1, v=2, x=3)
+  t2 = {'t': [5, 6]}
+  t_d = {'t': [5, G.wd(u=1, v=2, d=3)]}
+  asg = lambda keys, v: {'op': 'assign', 'fn': const(v), 'in': {'one': SELF}, 'keys': keys}
+  app = lambda out, v: {'op': 'apply', 'fn': const(v), 'in': {'one': SELF}, 'out': out}
+  producers = [
+      ('assign:plain', [asg({'one': N('x')}, 5)]),
+      ('assign:plain-u', [asg({'one': N('u')}, 5)]),
+      ('assign:tuple', [asg({'many': [N('x'), N('y')]}, t2)]),
+      ('assign:dict', [asg({'one': DK(('x', N('u')), ('y', N('v')))}, d_uv)]),
+      ('assign:tuple+dict', [asg({'many': [N('w'), DK(('x', N('u')))]}, t_d)]),
+      ('assign:path', [asg({'one': P('x')}, 5)]),
+      ('assign:nested-path', [asg({'one': P('x', 'w')}, 5)]),
+      ('assign:dict-path-key', [asg({'one': DK((P('x', 'w'), N('u')))}, d_uv)]),
+      ('apply:plain', [app({'one': N('x')}, 5)]),
+      ('apply:tuple', [app({'many': [N('x'), N('u')]}, t2)]),
+      ('apply:dict', [app({'one': DK(('x', N('u')), ('y', N('v')))}, d_uv)]),
+      ('apply:self', [app({'one': SELF}, G.wd(x=1, u=2))]),
+      ('select:renamed', [{'op': 'select', 'in': {'many': [N('a'), N('b')]}, 'out': {'many': [N('x'), N('u')]}}]),
+      ('select:default', [{'op': 'select', 'in': {'many': [N('a'), N('b')]}}]),
+      ('select+batch', [{'op': 'select', 'in': {'one': N('a')}, 'out': {'one': N('x')}}, {'op': 'batch', 'n': 2}]),
+      ('assign+select-drops', [asg({'one': N('x')}, 5), {'op': 'select', 'in': {'one': N('a')}}]),
+      ('none', []),
+  ]
+  mids = [('none', []), ('filter', [{'op': 'filter', 'fn': const(1), 'in': {'one': SELF}}]),
+          ('sink', [{'op': 'sink', 'fn': const(0), 'in': {'one': SELF}, 'is_sink': True}])]
+  consumers = [
+      ('plain-x', {'one': N('x')}, 7), ('plain-fresh', {'one': N('q')}, 7), ('path-x', {'one': P('x')}, 7),
+      ('tuple-x', {'many': [N('q'), N('x')]}, t2),
+      ('dict-key-x', {'one': DK(('x', N('u')))}, d_uv),                     # record key x, read from 'u'
+      ('dict-src-x', {'one': DK(('q', N('x')))}, d_uv),                     # record key q, read from 'x': legal
+      ('dict-src-u', {'one': DK(('q', N('u')))}, d_uv),
+      ('dict-2nd-x', {'one': DK(('q', N('u')), ('x', N('v')))}, d_uv),
+      ('tuple+dict-key-x', {'many': [N('q'), DK(('x', N('d')))]}, t_d),
+      ('tuple+dict-src-x', {'many': [N('q'), DK(('r', N('u')))]}, t_d),
+      ('dict-path-key', {'one': DK((P('x', 'w'), N('u')))}, d_uv),
+      ('self', {'one': SELF}, 7), ('self+q', {'many': [SELF, N('q')]}, t2),
+      ('dict-src-self', {'one': DK(('q', SELF))}, 7),                        # the whole output under q: legal
+      ('dict-key-self', {'one': DK((SELF, N('u')))}, d_uv),
+      ('dict-twice-q', {'one': DK(('q', N('u')), ('q2', N('u')))}, d_uv),    # two record keys from one source: legal
+  ]
+  items = [G.wd(a=1, b=2), G.wd(a=3, b=4)]
+  for pn, prod in producers:
+    for mn, mid in mids:
+      for cn, keys, v in consumers:
+        c = mk_case(copy.deepcopy(prod) + copy.deepcopy(mid) + [asg(copy.deepcopy(keys), v)], copy.deepcopy(items),
+                    tag=f'builder:{pn}/{mn}/{cn}')
+        yield c
+
+
+def arms_of(case):
+  """the promised arms a case exercises (computed from the case, so random cases count too)"""
+  arms = []
+  specs = case['specs']
+  items = case['src']['items']
+  first = items[0].get('d') if items and isinstance(items[0], dict) and 'd' in items[0] else None
+  produced = []
+  for sp in specs:
+    op = sp['op']
+    if op == 'assign':
+      ks = _norm_keys(sp['keys'])
+      flat = _flat(sp['keys'])
+      def nested_existing(k):
+        p = L._key_path(k)       # pylint: disable=protected-access
+        return bool(p and len(p) >= 2 and first is not None and isinstance(first.get(p[0]), dict) and
+                    any(t in first[p[0]] for t in ('d', 'l', 't')))
+      if len(flat) >= 2 and any(nested_existing(k) for k in flat) and not produced_replaced(specs, sp):
+        arms.append('assign: several keys, one a nested path into an existing container')
+        if any('dk' in k for k in ks):
+          arms.append('assign: dict-form key whose record key is a nested path into an existing container')
+        if specs.index(sp) > 0 and specs[specs.index(sp) - 1]['op'] == 'sink':
+          arms.append('assign (several keys, nested) directly behind a sink')
+        if case['src'].get('twice'):
+          arms.append('assign (several keys, nested) over record objects that occur twice')
+      for k in ks:
+        if 'dk' in k:
+          for n, src in k['dk']:
+            rk = L.rk_json(n)
+            if jdump(rk) != jdump(src):
+              arms.append('dict-form assign key: record key != source name')
+            if jdump(rk) in produced and jdump(rk) != jdump(src):
+              arms.append('dict-form assign key: record key already produced (must be rejected)')
+            if jdump(src) in produced and jdump(rk) not in produced:
+              arms.append('dict-form assign key: only the SOURCE name equals a produced key (legal)')
+            if 'self' in src:
+              arms.append('dict-form assign key: source SELF')
+      produced += [jdump(k) for k in flat]
+    elif op == 'apply':
+      produced = [jdump(k) for k in _flat(sp['out'])]
+    elif op == 'select':
+      out = sp.get('out')
+      produced = [jdump(k) for k in _flat(out if out is not None and _flat(out) else _in_keys(sp['in']))]
+  return arms
+
+
+def produced_replaced(specs, sp):
+  """an apply / select / batch in front of `sp` replaced the source records (the nested containers are then not the
+  caller's)"""
+  return any(s['op'] in ('apply', 'select', 'batch') for s in specs[:specs.index(sp)])
+
+
+def _norm_keys(spec):
+  return [spec['one']] if 'one' in spec else list(spec.get('many', []))
+
+
 def gen_cases(ctx):
   rng, quick = ctx.rng, ctx.quick
 
@@ -163,10 +333,14 @@ def gen_cases(ctx):
               ctx.count('key_shape', shape)
       if c.get('threads'):
         ctx.count('threads', c['threads'])
+      for arm in arms_of(c):
+        ctx.count('arm', arm)
       yield c
 
   yield from counted(ctx.corpus(), 'corpus')
   yield from counted(systematic(rng), 'systematic')
+  yield from counted(nested_assign_cases(rng), 'nested-assign')
+  yield from counted(builder_cases(), 'builder')
 
   def rand(n):
     for _ in range(n):
@@ -197,7 +371,15 @@ REQUIRED = {
     'operator': ['select', 'apply', 'assign', 'filter', 'batch', 'sink', 'aggregate', 'apply+batch', 'select+batch', 'assign+batch'],
     'key_shape': ['single', 'kwargs', 'tuple0', 'tuple1', 'tuple2', 'tuple3', 'bare-name', 'index', 'path-1', 'path-nested',
                   'path-with-index', 'dict-output-key', 'SELF', 'SKIP', 'LIT'],
-    'class': ['systematic', 'typed', 'wild', 'threads'],
+    'class': ['systematic', 'typed', 'wild', 'threads', 'nested-assign', 'builder'],
+    'arm': ['assign: several keys, one a nested path into an existing container',
+            'assign: dict-form key whose record key is a nested path into an existing container',
+            'assign (several keys, nested) directly behind a sink',
+            'assign (several keys, nested) over record objects that occur twice',
+            'dict-form assign key: record key != source name',
+            'dict-form assign key: record key already produced (must be rejected)',
+            'dict-form assign key: only the SOURCE name equals a produced key (legal)',
+            'dict-form assign key: source SELF'],
     'outcome': ['built', 'rejected:ValueError', 'rejected:KeyError', 'rejected:TypeError'],
 }
 
@@ -217,9 +399,11 @@ def export_stats(ctx):
   for k, h in STATS.items():
     for sub, n in h.items():
       ctx.count(k, sub, n)
+  from harness.core import InfraError
   if not STATS.get('batched_theorem', {}).get('side-conditions hold'):
-    from harness.core import InfraError
     raise InfraError('no generated case was inside the domain of the batched refinement theorems')
+  if ctx.pid == 'C08' and STATS.get('heap_tie', {}).get('records compared', 0) < 100:
+    raise InfraError('the heap tie (identity pattern of assign outputs vs Model/PipeHeap.lean) compared fewer than 100 records')
 
 
 def key_shapes(spec):
@@ -259,11 +443,48 @@ def run_impl(case):
 
 
 def model_requests(case):
-  return [dict(model='pipe', specs=case['specs'], src=case['src'], ignore=bool(case.get('ignore')))]
+  reqs = [dict(model='pipe', specs=case['specs'], src=case['src'], ignore=bool(case.get('ignore')))]
+  plan = L.heap_plan(case)
+  if plan:
+    reqs += plan
+  return reqs
 
 
 def model_obs(case, resps):
+  if len(resps) > 1:
+    heap = list(resps[1:])
+    if case['src'].get('twice'):
+      heap = heap + heap
+    return dict(resps[0], heap=heap)
   return resps[0]
+
+
+def compare_heap(impl, model):
+  """The heap-aware model of `_get_outputs` (Model/PipeHeap.lean, theorem C08_assign_no_write) against the real
+  objects: per record, the containers of the output that ARE containers of the caller's record (identity), the value,
+  and the functional model."""
+  heap, shared = model['heap'], impl.get('shared')
+  if shared is None or impl.get('err') is not None or model.get('err') is not None or len(heap) != len(shared):
+    _stat('heap_tie', 'skipped (the run raised)')
+    return None
+  for i, (hp, sh) in enumerate(zip(heap, shared)):
+    _stat('heap_tie', 'records compared')
+    if 'driver_error' in hp:
+      return f"pipeheap driver: {hp['driver_error']}"
+    if hp['err'] is not None:
+      return f"record {i}: the heap model raises {hp['err']}, the code does not"
+    if not hp['agree']:
+      return f'record {i}: the heap model and the functional model of _get_outputs differ'
+    if hp['written']:
+      return f"record {i}: the heap model wrote {hp['written']} pre-existing cells (contradicts C08_assign_no_write)"
+    if hp['out'] != impl['out'][i]:
+      return f"record {i}: heap model value {jdump(hp['out'])[:200]} / code {jdump(impl['out'][i])[:200]}"
+    a, b = sorted(jdump(p) for p in hp['shared']), sorted(jdump(p) for p in sh)
+    if a != b:
+      return (f'record {i}: containers of the output that are objects of the caller\'s record: heap model {a} / '
+              f'real objects {b}')
+    _stat('heap_tie_shared_containers', min(len(a), 4))
+  return None
 
 
 def _multiset(xs):
@@ -336,6 +557,10 @@ def compare(impl, model):
     d = compare_batched(impl, model)
     if d is not None:
       return d
+  if 'heap' in model:
+    d = compare_heap(impl, model)
+    if d is not None:
+      return d
   # the two formulations of the Lean reference (operator-major / record-major) agree on clean runs
   if 'ref_out' in model and model.get('ref_clean') and model['ref_err'] is None and model['ref2_err'] is None \
       and model['ref_out'] != model['ref2_out']:
@@ -354,6 +579,13 @@ def compare_threads(impl, model):
     return None if impl.get('err') is not None else 'model predicts an error, the threaded run had none'
   if impl.get('err') is not None:
     return f"threaded run raised {impl['err']}"
+  if impl['threads'] == 1:
+    # one worker behind the lock wrapper: the in-process order (Iter.tsNext is transparent: C12_threadsafe_transparent)
+    if impl['out'] != model['out']:
+      return f"num_threads=1: output differs (in order): code {jdump(impl['out'])[:300]} / model {jdump(model['out'])[:300]}"
+    if impl['logs'] != model['logs']:
+      return 'num_threads=1: sink logs differ (in order)'
+    return None
   if _multiset(impl['out']) != _multiset(model['out']):
     return 'output multisets differ'
   if [_multiset(l) for l in impl['logs']] != [_multiset(l) for l in model['logs']]:
@@ -429,6 +661,7 @@ def oracle(case, obs):
   if obs.get('write_after_close'):
     return '[sink] a sink was written after it had been closed'
   threads = case.get('threads')
+  par = bool(threads) and threads > 1        # several workers: order across workers is not promised
   rerr = ref['err']
   if rerr is not None and rerr[0] == 'undefined':
     return None
@@ -443,9 +676,9 @@ def oracle(case, obs):
   if rerr is None:
     if obs['err'] is not None:
       return f"the reference evaluates without error, the pipeline raised {obs['err']} ({obs.get('msg')})"
-    if (threads and _multiset(obs['out']) != _multiset(ref['out'])) or (not threads and obs['out'] != ref['out']):
+    if (par and _multiset(obs['out']) != _multiset(ref['out'])) or (not par and obs['out'] != ref['out']):
       return f"output differs from the reference: {jdump(obs['out'])[:400]} != {jdump(ref['out'])[:400]}"
-    logs_ok = [_multiset(l) for l in obs['logs']] == [_multiset(l) for l in ref['logs']] if threads else obs['logs'] == ref['logs']
+    logs_ok = [_multiset(l) for l in obs['logs']] == [_multiset(l) for l in ref['logs']] if par else obs['logs'] == ref['logs']
     if not logs_ok:
       return f"[sink] sink contents differ from the reference: {jdump(obs['logs'])[:300]} != {jdump(ref['logs'])[:300]}"
     if any(c < 1 for c in obs['closed']) or (not threads and any(c != 1 for c in obs['closed'])):
@@ -507,7 +740,7 @@ def _flat(spec):
   out = []
   for k in ks:
     if 'dk' in k:
-      out += [{'n': n} for n, _ in k['dk']]
+      out += [L.rk_json(n) for n, _ in k['dk']]
     else:
       out.append(k)
   return out
@@ -547,9 +780,6 @@ def assign_misaligned(case):
 def finding(case, what):
   if what.startswith('[sink] a sink was written after') and case.get('threads'):
     return 'F-C08-sink-threads'
-  if what.startswith('[over-reject]') and any(
-      sp['op'] == 'assign' and sp['keys'] == {'one': {'i': 0}} for sp in case['specs']):
-    return 'F-C08-index0'
   if assign_misaligned(case):
     return 'F-C08-assign-rebatch'
   if fnbatch_unreadable(case):
